@@ -136,6 +136,7 @@ def run_many(drv, scripts, wd, par=vlib.NCPU):
 def areq(rnd, peer, text):
     """an 'A' command; in about a third of the cases the request arrives in pieces ('AC'), like a request that needs several
     recv() calls (anything above the connection buffer of 4 KiB always does)"""
+    if rnd.random() < 0.3: text = text.replace('\n', '\r\n')        # line ends as RFC 5545 prescribes them (a piece may end between CR and LF)
     if rnd.random() < 0.65:
         return 'A\t%d\t%s' % (peer, rrgen.esc(text))
     sizes = rnd.choice([[1], [2], [7], [16, 3], [64], [100], [4096], [rnd.randint(1, 300) for _ in range(rnd.randint(1, 6))], [max(1, len(text) // 2)], [max(1, len(text) - 1)]])
